@@ -230,7 +230,7 @@ M_Init == /\\ heap = DoNewCircuit(DoAddOp(DoNewCircuit(<<>>, "n1", NoLink, <<"fi
           keep=lambda p: p[-1]['a'] in ('AddSub', 'CopyCirc', 'Apply') and any(s['a'] == 'AddOp' and s['m']['kind'] != 'Wait' for s in p)
           and sum(1 for s in p if s['a'] in ('AddSub', 'CopyCirc', 'Apply')) == 1)
         # (2d'') every operation class drawn (compact and non-compact, various channel orders / label maps) in every position
-        g('drawkinds', menu + anchors, anchors=anchors, max_non_anchor=1, reps=[('fixed', 1)], linktypes=('FB', 'JS'), configs=(gen.DEFAULT_CFG, CFG_A),
+        g('drawkinds', menu + anchors, anchors=anchors, max_non_anchor=1, reps=[('fixed', 1)], linktypes=('FB', 'JE'), configs=(gen.DEFAULT_CFG, CFG_A),
           acts=('AddOp', 'Obs'), obskinds=('draw', 'drawnc'), max_circs=2, max_objs=7, max_steps=6, workers=8, min_emit=5, timeout=100, init_defs=init,
           cap=1500 if quick else 20000,
           keep=lambda p: any(s['a'] == 'Obs' for s in p) and any(s['a'] == 'AddOp' and s['m']['kind'] != 'Wait' for s in p[3:]))
@@ -270,7 +270,7 @@ M_Init == /\\ heap = DoNewCircuit(DoAddOp(DoNewCircuit(<<>>, "n1", NoLink, <<"fi
       keep=lambda p: any(s['a'] == 'Flatten' for s in p) and any(s['a'] == 'AddSub' for s in p))
     # (2h) histories: observations interleaved with mutations (C03)
     g('hist', [gen.leaf('Wait', [0], [[0, 'ALL']], ['reg', 'k1']), gen.leaf('Wait', [0], [[0, 'ALL']], ['fixed', 4]),
-               gen.leaf('Rx180', [1], [[1, 'MICROWAVE']], ['global', 'MW']), gen.leaf('Barrier', [0, 1], [[0, 'ALL'], [1, 'ALL']], ['fixed', 2])],
+               gen.leaf('Rx180', [1], [[1, 'MICROWAVE']], ['global', 'MW']), gen.leaf('Barrier', [0, 1], [[0, 'ALL'], [1, 'ALL']], ['fixed', 2])] + meas((0, 1)),
       reps=[('fixed', 1), ('fixed', 2)], configs=(gen.DEFAULT_CFG, CFG_A),
       acts=('NewCircuit', 'AddOp', 'AddSub', 'Apply', 'SetDur', 'Enter', 'Leave', 'Obs', 'CopyCirc'), linktypes=('FB',), max_circs=2,
       obskinds=('full', 'plot', 'stim', 'ops'),
@@ -393,6 +393,8 @@ def counts_for(pid, clause, trace):
         return True                     # any other exception / unknown event inside a generated program concerns every property
     if pid == 'C05' and clause in ('C02.complete', 'C02.attrs') and any(e['ev'] in ('AddSub', 'CopyCirc', 'Apply') for e in trace):
         return True                     # independence: a copy (or its source) lists something it should not after a mutation
+    if pid == 'C01' and clause == 'C04.followers':
+        return True                     # an operation FOLLOWED_BY a block starts when the block (all of it) has ended
     if pid == 'C06' and clause in ('C01.eq.multi',):
         return True                     # chain rule: copy k+1 starts when the latest relation leaf before it has ended
     if pid == 'C11' and clause in ('C02.complete', 'C02.attrs') and any(e['ev'] == 'Flatten' for e in trace):
